@@ -547,14 +547,19 @@ fn is_end_bound_safe_for_range(
                 ScalarValue::try_from_array(most_recent_ob_col, 0)?;
             let current_row_value = ScalarValue::try_from_array(orderby_col, idx)?;
 
+            // Use checked arithmetic: if the bound leaves the domain of the key type (e.g. an
+            // unsigned key smaller than the offset) the frame extends to the end of the
+            // partition, so the end bound cannot be declared safe.
             if sort_options.descending {
-                current_row_value
-                    .sub(delta)
+                Ok(current_row_value
+                    .sub_checked(delta)
                     .map(|value| value > most_recent_row_value)
+                    .unwrap_or(false))
             } else {
-                current_row_value
-                    .add(delta)
+                Ok(current_row_value
+                    .add_checked(delta)
                     .map(|value| most_recent_row_value > value)
+                    .unwrap_or(false))
             }
         }
     }
